@@ -20,7 +20,7 @@ Leaves == {Leaf("time", "", 0), Leaf("leeway", "", 0), Leaf("leeway", "", 1), Le
 \* nanosecond difference holds;  c = +-9: the ends of the representable range)
 TimePoints == {<<c, f>> : c \in {0 - 2, 0 - 1, 0, 1, 2}, f \in {0 - 1, 0, 1}} \cup {<<c, 0>> : c \in {0 - 9, 0 - 8, 8, 9}}
 OptTime == {<< >>} \cup {<<t>> : t \in TimePoints}
-OptStr == {<< >>, <<"">>, <<"a">>, <<"ab">>, <<"b">>}
+OptStr == {<< >>, <<"">>, <<"a">>, <<"ab">>, <<"b">>, <<"ba">>}     \* "ba": same length and same bytes as "ab", other order
 Cl(exp, nbf, iss, sub, aud) == [exp |-> exp, nbf |-> nbf, iss |-> iss, sub |-> sub, aud |-> aud]
 \* time-related claims with fixed strings, string claims with fixed times
 ClaimsDomain == {Cl(e, n, <<"a">>, << >>, <<"b">>) : e \in OptTime, n \in OptTime}
